@@ -382,7 +382,8 @@ func (c *Ctx) ruleC01Scanner(m *scanfsm.Machine, thorough bool) {
 	r := c.R
 	r.Rule("C01-PDS-UNDERFLOW", "no reachable configuration executes stepStack.Pop() with an empty stack; no End event meets an empty event stack (the two 'Reading from empty stack' panics and shiftFound are unreachable)", 1)
 	r.Rule("C01-FSM-PROGRESS", "every cycle of the reachable configuration graph has strictly positive cursor weight (decided with potentials: no negative cycle, no cycle of tight edges)", 1)
-	kinds := map[string]string{"underflow": "C01-PDS-UNDERFLOW", "progress": "C01-FSM-PROGRESS", "bracket": "C01-PDS-UNDERFLOW"}
+	kinds := map[string]string{"underflow": "C01-PDS-UNDERFLOW", "progress": "C01-FSM-PROGRESS", "bracket": "C01-PDS-UNDERFLOW", "extent": "C01-LEXEME-EXTENT"}
+	r.Rule("C01-LEXEME-EXTENT", "no lexeme ends more than one byte before it begins (Lexeme.Value would slice out of range and panic)", 1)
 	runs := []bool{false}
 	if thorough && m.NulGuard {
 		runs = append(runs, true)
@@ -399,6 +400,9 @@ func (c *Ctx) ruleC01Scanner(m *scanfsm.Machine, thorough bool) {
 		}
 		if n["C01-PDS-UNDERFLOW"] == 0 {
 			r.Ok("C01-PDS-UNDERFLOW", "all reachable configurations"+label, fmt.Sprintf("no pop of an empty step stack and no unmatched End event in %d configurations", a.Configs), "")
+		}
+		if n["C01-LEXEME-EXTENT"] == 0 {
+			r.Ok("C01-LEXEME-EXTENT", "all Begin..End pairs"+label, fmt.Sprintf("minimal extent >= -1 at all %d end sites", len(a.ExtentMin)), "")
 		}
 		if n["C01-FSM-PROGRESS"] == 0 {
 			r.Ok("C01-FSM-PROGRESS", "all cycles"+label, fmt.Sprintf("no cycle of non-positive cursor weight among %d edges", a.Edges), "")
